@@ -4,6 +4,7 @@ package main
 
 import (
 	"os"
+	"runtime"
 	"fmt"
 	"go/ast"
 	"go/types"
@@ -35,20 +36,22 @@ type ModelInputs struct {
 	Bytes   map[string][]int  `json:"bytes,omitempty"`
 }
 
-func (e *Engine) VerifyFunction(fn *ssa.Function, con *Contract) *FnResult {
+func (e *Engine) VerifyFunction(fn *ssa.Function, con *Contract) (res *FnResult) {
 	t0 := time.Now()
 	fx := &FnCtx{eng: e, fn: fn, con: con, obls: map[string]*Obligation{}, heapSorts: map[string]string{}, loops: map[*ssa.BasicBlock]*loopInfo{},
 		unsup: map[string]bool{}, notes: map[string]bool{}, params: map[string]*Val{}, maxPaths: 6000, keySorts: map[string]string{}, locksTouched: map[string]bool{}, covers: map[string]bool{}, exercised: map[*AtCall]bool{}}
 	fx.sol = NewSolver(e.TimeoutMs)
 	defer fx.sol.Close()
-	res := &FnResult{Func: shortFn(fn.String())}
+	res = &FnResult{Func: shortFn(fn.String())}
 	if fn.Pos().IsValid() {
 		p := e.Prog.Fset.Position(fn.Pos())
 		res.File = strings.TrimPrefix(p.Filename, e.RepoDir+"/")
 	}
 	defer func() {
 		if r := recover(); r != nil {
-			fx.unsupported(fmt.Sprintf("engine panic: %v", r))
+			buf := make([]byte, 4096)
+			buf = buf[:runtime.Stack(buf, false)]
+			fx.unsupported(fmt.Sprintf("engine panic: %v %s", r, strings.ReplaceAll(string(buf), "\n", " | ")))
 			fx.finish(res, t0)
 		}
 	}()
